@@ -300,8 +300,10 @@ def sender_oracle(line, impl, clauses):
                         break
             if any(t[0] == "D" for t in g):
                 last_burst = [t for t in g if t[0] == "D"]
-        if st == "ok" and not any(t[0] == "D" and dtok(t)[1] < c.b for g in groups for t in g):
-            return ("transfer reported complete without sending a final (short) block", "ok-without-final")
+
+    if ("termination" in clauses or "slice" in clauses) and st == "ok":
+        if not any(t[0] == "D" and dtok(t)[1] < c.b for g in groups for t in g):
+            return ("transfer reported complete although its last block — the first one shorter than blksize, empty for an exact multiple — was never sent", "ok-without-final")
     if "window" in clauses:
         r = window_clauses(c, groups, st)
         if r:
